@@ -858,6 +858,27 @@ theorem prune_good {s s1 : Sys} {app : String} {now old : Time} {b : Bool} (h : 
       obtain ⟨rfl, rfl⟩ := e
       exact ⟨g1, rfl, hc1, hf1⟩
 
+/-- the FOREIGN KEY guard of the mailbox loop of `prune`, as a statement of its own: after the
+    nameplate loop has run over `old_nameplates`, no nameplate row references any of the
+    `old_mailboxes` (so each `DELETE FROM mailboxes WHERE id=?` is accepted: `Chan.pruneBlock_fk`) -/
+theorem prune_fk_guard {sA s2 : Sys} {app : String} {now old : Time} {b : Bool} (hdb : sA.db.CQ U t)
+    (e : sA.pruneNameplates app now ((sA.db.nameplatesOfApp app).filter (fun r => r.mailbox ∈
+      ((sA.db.mailboxesOfApp app).filter (fun r => ¬ r.updated > old)).map (·.id))) = (s2, b)) :
+    ∀ row ∈ (sA.db.mailboxesOfApp app).filter (fun r => ¬ r.updated > old),
+      ∀ n ∈ s2.db.nameplates, ¬ n.mailbox = row.id := by
+  obtain ⟨_, _, _, _, _, hnp2⟩ := pruneNameplates_good (S := False) _ e hdb False.elim
+    (fun n hn => (List.mem_filter.1 (List.mem_filter.1 hn).1).1)
+    (List.Pairwise.filter _ (List.Pairwise.filter _ hdb.cinv.npIds))
+  intro row hrow n hn e'
+  obtain ⟨hnA, hnot⟩ := hnp2 n hn
+  have hrow' := hrow
+  simp only [Chan.mailboxesOfApp, List.mem_filter, decide_eq_true_eq] at hrow'
+  have happ : n.app = app := hdb.cinv.toPInv.np_app_of_mailbox ⟨row, hrow'.1.1, rfl, hrow'.1.2⟩ hnA e'
+  apply hnot n _ rfl
+  refine List.mem_filter.2 ⟨List.mem_filter.2 ⟨hnA, by simpa using happ⟩, ?_⟩
+  simp only [decide_eq_true_eq, List.mem_map]
+  exact ⟨row, hrow, e'.symm⟩
+
 theorem pruneApps_good {now old : Time} (hnow : now ≤ t) (hold : old < now) (l : List String) :
     ∀ {s s1 : Sys} {b : Bool}, s.Good U t S → s.pruneApps now old l = (s1, b) →
       s1.Good U t S ∧ b = true ∧ s1.conns = s.conns ∧ s1.cfg = s.cfg := by
